@@ -82,21 +82,33 @@ def helper(cfg, crate, rep):
         rep.fail("C09.range", key + "|shape", "expected exactly one UTCTime and one GeneralizedTime alternative", found=[s[2].get("kind") for s in slots])
         return
     cu, cg = utc[0][0], gen[0][0]
-    ats = F.atoms(cu)
-    ok_atom = len(ats) == 1 and ats[0][0] == "inrange"
-    rep.ob("C09.range", key + "|decision-atom", ok_atom, "the form is decided by one range test on the year", found=F.show(cu))
+    # the decision must be a function of one integer quantity: the year of the (UTC-normalised) value
+    vars_ = set()
+    for a in F.atoms(cu):
+        if a[0] == "inrange":
+            vars_.add(a[1])
+        elif a[0] == "cmp":
+            vars_ |= {x for x in (a[2], a[3]) if not str(x).lstrip("-").replace("_", "").isdigit()}
+        else:
+            vars_.add("?" + F.show_atom(a))
+    ok_atom = len(vars_) == 1 and not next(iter(vars_)).startswith("?")
+    rep.ob("C09.range", key + "|decision-atom", ok_atom, "the form is decided by range tests on one quantity (the year)", found=F.show(cu))
     if not ok_atom:
         return
-    a = ats[0]
-    lo, hi, incl = a[2], a[3], a[4]
-    hi_excl = hi + 1 if incl else hi
-    pos = F.evalf(cu, {a: True}) and not F.evalf(cu, {a: False})
-    rep.ob("C09.range", key + "|bounds", lo == 1950 and hi_excl == 2050 and pos, "UTCTime exactly when 1950 <= year <= 2049 (RFC 5280 4.1.2.5)", expected="1950..2050 -> UTCTime", found="%s..%s%s -> %s" % (lo, "=" if incl else "", hi, "UTCTime" if pos else "not UTCTime"), sp=utc[0][2].get("sp"))
+    var = next(iter(vars_))
+    bad = [y for y in list(range(1890, 2120)) + [-1, 0, 1, 9999, 10000] if F.int_semantics(cu, var, y) != (1950 <= y < 2050)]
+    rep.ob("C09.range", key + "|bounds", not bad, "UTCTime exactly when 1950 <= year <= 2049 (RFC 5280 4.1.2.5): the decision was evaluated for every year in 1890..2120 and at the extremes", expected="1950..=2049 -> UTCTime", found="differs at years %s" % bad[:6] if bad else "agrees", sp=utc[0][2].get("sp"))
     rep.ob("C09.range", key + "|complement", not F.counterexamples(cg, Not(cu), "equiv"), "GeneralizedTime exactly otherwise (the two forms partition all inputs)", found=F.show(cg))
-    (yv,) = I.atom_vals.get(a, (None,))
+    yv = None
+    for a in F.atoms(cu):
+        vals = I.atom_vals.get(a, ())
+        for x in vals:
+            if x is not None and core(x).r() == var:
+                yv = x
     yc = core(yv) if yv is not None else None
+    # the quantity may be a `let year = dt.year()` local: follow to the call
     ok_year = isinstance(yc, CallV) and yc.callee.endswith("OffsetDateTime::year")
-    rep.ob("C09.utc", key + "|year-of", ok_year and places(yc) == {"dt"}, "the tested quantity is the year of the caller's value", found=yc.r() if yc is not None else None)
+    rep.ob("C09.utc", key + "|year-of", ok_year and places(yc) == {"dt"}, "the tested quantity is the year of the caller's value", found=yc.r() if yc is not None else var)
     if ok_year:
         subject = yc.args[0]
         via = calls_of(subject)
